@@ -128,8 +128,14 @@ def oracle(ctx, rng, n):
     for ci in range(n):
         coolant = rng.choice(['sodium', 'sodium', 'nak'])
         pos = [(1, 1)] + [p for p in gi.core_positions(2)[1:] if rng.random() < 0.6]
-        base = gi.random_case(rng, positions=pos, n_types=rng.choice([1, 1, 2]), gap_model='none', const_props=False,
-                              length=round(rng.uniform(0.1, 0.25), 3), flow_range=(0.2, 5.0))
+        forced = {}
+        if ci % 3 == 0:
+            # every third core: several clones of ONE double-ducted type (bypass gap state is per assembly, too)
+            forced = dict(type_kw=dict(n_duct=2, n_ring=rng.choice([2, 3])))
+            while len(pos) < 3:
+                pos = [(1, 1)] + [p for p in gi.core_positions(2)[1:] if rng.random() < 0.6]
+        base = gi.random_case(rng, positions=pos, n_types=1 if forced else rng.choice([1, 1, 2]), gap_model='none', const_props=False,
+                              length=round(rng.uniform(0.1, 0.25), 3), flow_range=(0.2, 5.0), **forced)
         base['core']['coolant_material'] = coolant
         for tn in list(base['types']):
             if rng.random() < 0.3:
